@@ -199,6 +199,23 @@ Theorem C11_barycentric_children : forall x0 x1 x2 : vec,
 Proof. exact bary_children_normals. Qed.
 Print Assumptions C11_barycentric_children.
 
+(* barycentric_refinement: six children per element (the library's order), each with the parent's orientation and a
+   sixth of its area vector (so areas add up); old vertices kept; children inherit the domain index.
+   Not proved (correspondence only): the total number of vertices nv + n + number of edges. *)
+Theorem C11_barycentric_partial : forall (vs : list vec) (els : list elem) (dom : list nat),
+  in_range els (length vs) = true ->
+  let b := barycentric (vs, els, dom) in let X := fun e k => vat vs (vget (el els e) k) in
+  length (g_els b) = 6 * length els /\ length (g_dom b) = 6 * length dom /\
+  (forall e k, e < length dom -> k < 6 -> nth (6 * e + k) (g_dom b) 0 = nth e dom 0) /\
+  (forall i, i < length vs -> vat (g_vs b) i = vat vs i) /\
+  (forall e k, e < length els -> k < 6 ->
+     let c := nth (6 * e + k) (g_els b) (0, 0, 0) in
+     let Y := fun i => vat (g_vs b) (vget c i) in
+     vget c 0 < length (g_vs b) /\ vget c 1 < length (g_vs b) /\ vget c 2 < length (g_vs b) /\
+     veq (normal_dir (Y 0) (Y 1) (Y 2)) (vscale (1 # 6)%Q (normal_dir (X e 0) (X e 1) (X e 2)))).
+Proof. exact barycentric_correct. Qed.
+Print Assumptions C11_barycentric_partial.
+
 (* grid_from_segments: exactly the elements with a listed domain index are kept, in order, with their domain
    indices; their vertices are renumbered injectively, keep their coordinates, and no unused vertex remains *)
 Theorem C11_segments : forall (vs : list vec) (els : list elem) (dom segs : list nat),
